@@ -45,6 +45,7 @@ func run(r *vk.Run) {
 		"re-selecting the mode that is already active: the statement only fixes the switch to a different mode; accepted start times are the previous one and the stored mode's own, a fresh clock stamp is reported (doc: 'Updates the StartTime ... if the mode changes')",
 		"clear-active with no normal mode: an error is accepted, success is accepted only if the active mode did not change; with two normal modes already present (only reachable through another violation) the clause is not judged",
 		"ids given to add/update/delete/set-active/change-active are non-empty; create gets an empty id (the Model panics otherwise by contract)",
+		"UpdateMode is called with update masks only: passing collection-level write options such as resource.WithCreateIfAbsent through it (which makes it create modes, possibly with an empty id field and past the normal-mode check) and models configured with an id interceptor for modes are outside the quantified operations (creation is CreateMode/AddMode)",
 		"documented return codes that the statement does not mention (AlreadyExists for a second normal mode, NotFound for unknown ids, FailedPrecondition for deleting the active mode) are compared with a small reference table and only counted (ref-divergence:*), never reported",
 		"concurrent part relies on change events being published in commit order (C03, repaired in the tree) to read the backpressured PullModes stream as the sequence of committed states")
 
@@ -88,7 +89,7 @@ type op struct {
 	Kind   string `json:"kind"`             // create add update delete set-active change-active clear-active
 	Target string `json:"target,omitempty"` // a0..a3 = fixed ids, c0..c2 = n-th mode created with a generated id, ghost = never exists
 	Normal bool   `json:"normal,omitempty"`
-	Mask   string `json:"mask,omitempty"` // update: normal | title | none (= no mask, full replace)
+	Mask   string `json:"mask,omitempty"` // update: normal | title | empty (present, no paths) | none (= no mask, full replace)
 	AM     bool   `json:"allow_missing,omitempty"`
 	Door   string `json:"door"` // model | server (ModelServer method) | client (generated in-process client)
 
@@ -339,6 +340,8 @@ func (w *world) exec(o op, id string) (out outcome) {
 				mask = &fieldmaskpb.FieldMask{Paths: []string{"normal"}}
 			case "title":
 				mask = &fieldmaskpb.FieldMask{Paths: []string{"title"}}
+			case "empty":
+				mask = &fieldmaskpb.FieldMask{} // present, no paths: nothing is written
 			}
 			switch o.Door {
 			case "model":
